@@ -150,6 +150,33 @@ def run(ctx):
     if sites < 6:
         ck.bad('C01-D2', 'wpull', 'URL-adding call sites', 'only %d URL-adding call sites found (expected >= 6)' % sites)
     child_record_rules(ctx, 'C01-D2')
+    # an FTP listing names files, not relative URLs: a name is quoted as one path segment before it is joined onto the directory URL
+    # (`a#b.txt` would lose its tail as a fragment, `c?d` gain a query, `x:y` be taken for a scheme - the file itself is never queued)
+    al = repo.func('wpull.processor.ftp:FTPProcessorSession._add_listing_links')
+    aldefs = U.local_defs(al.node)
+    n_join = 0
+
+    def quoted(e, depth=0):
+        if e is None or depth > 4:
+            return False
+        if isinstance(e, ast.BinOp):
+            return quoted(e.left, depth + 1) and (isinstance(e.right, ast.Constant) or quoted(e.right, depth + 1))
+        if isinstance(e, ast.Call):
+            return (dotted(e.func) or '').split('.')[-1] in ('quote', 'quote_plus', 'percent_encode', 'quote_from_bytes')
+        if isinstance(e, ast.Name):
+            ds = [v for v, k, st in aldefs.get(e.id, []) if k == 'assign']
+            return bool(ds) and all(quoted(v, depth + 1) for v in ds)
+        return False
+    for c in U.calls(al.node):
+        if U.attr_name(c) in ('urljoin_safe', 'urljoin') or (isinstance(c.func, ast.Name) and c.func.id in ('urljoin_safe', 'urljoin')):
+            if len(c.args) < 2:
+                continue
+            n_join += 1
+            ck.expect(quoted(c.args[1]), 'C01-D2', al.qual, 'the listed name is quoted as a path segment before it is joined',
+                      '`%s` is joined as a relative URL: a file called `a#b.txt`, `c?d`, `x:y` or `50%%25` is queued under another name '
+                      '(fragment cut, query, scheme, escape) and is never fetched' % norm_text(c.args[1])[:40], al.loc(c))
+    if n_join < 2:
+        raise AnalysisError('_add_listing_links: expected the joins for directories and files (found %d)' % n_join)
     # every scraped link that parses and passes the filters is queued (nothing else decides)
     ps = repo.func(RULE + ':ProcessingRule._process_scrape_info')
     loops = [n for n in walk_no_nested(ps.node) if isinstance(n, ast.For)]
